@@ -37,6 +37,8 @@ type Opts struct {
 	Width, Height    int
 	Interrupt        chan struct{}
 	Ctx              context.Context
+	// Lines are handed to Readline one by one (REPL input), then EOF
+	Lines []string
 }
 
 type Result struct {
@@ -82,6 +84,7 @@ type vos struct {
 	stdout bytes.Buffer
 	stderr bytes.Buffer
 	intr   chan struct{}
+	line   int
 }
 
 func newVOS(o Opts) *vos {
@@ -135,6 +138,10 @@ func (v *vos) Environ() []string {
 func (v *vos) ConfigDir() (string, error) { return "/config", nil }
 func (v *vos) FS() fs.FS                  { return v.fsys }
 func (v *vos) Readline(opts interp.ReadlineOpts) (string, error) {
+	if v.line < len(v.o.Lines) {
+		v.line++
+		return v.o.Lines[v.line-1], nil
+	}
 	return "", io.EOF
 }
 func (v *vos) History() ([]string, error) { return nil, nil }
